@@ -1,23 +1,25 @@
 (* C28 - Experimental parser is total.  Statements only; proofs are in Proofs/XLexer*.v.
-   The lexer half is the model of Model/XLexer.v ([as_is] = the pinned tree, [repaired] = with the
-   proposed repairs); of the parser only the verdict loop of parser.Parse is modelled. *)
+   The lexer half is the model of Model/XLexer.v ([repaired] = the working tree, with the repairs;
+   [as_is] = the pinned tree before them); of the parser only the verdict loop of parser.Parse is
+   modelled ([verdict_repaired] = the working tree, [verdict_as_is] = before the repair).  The
+   theorems about the code before the repairs are kept as historical lemmas. *)
 From Coq Require Import List NArith ZArith Bool.
 From PV Require Import Model.XLexer Model.XLexerTables Proofs.XLexerLoop Proofs.XLexer Proofs.XLexerParser.
 Import ListNotations.
 
-(* the repaired lexer never panics (mustProgress never fires, Stream.Push never overflows, no
+(* the lexer (with the repairs) never panics (mustProgress never fires, Stream.Push never overflows, no
    diagnostic constructor panics) and never runs out of its fuel length+1, on any text *)
 Theorem C28_xlex_total : forall s, no_panic (xlex parser_cfg repaired s).
 Proof. exact xlex_total_lemma_repaired. Qed.
 Print Assumptions C28_xlex_total.
 
-(* the lexer as written does panic: a quote followed by a backslash at the end of the text *)
+(* historical: the lexer before the repairs does panic: a quote followed by a backslash at the end of the text *)
 Theorem C28_xlex_total_refuted :
   exists s ts ds, prelude_ok parser_cfg s /\ xlex parser_cfg as_is s = XICE ts ds.
 Proof. exact xlex_total_refuted_lemma. Qed.
 Print Assumptions C28_xlex_total_refuted.
 
-(* ... and only on texts that end in a backslash *)
+(* historical: ... and only on texts that end in a backslash *)
 Theorem C28_xlex_total_partial : forall s, last_byte s <> Some 92%N -> no_panic (xlex parser_cfg as_is s).
 Proof. exact xlex_total_partial_lemma. Qed.
 Print Assumptions C28_xlex_total_partial.
@@ -33,14 +35,14 @@ Theorem C28_xlex_spans_in_file : forall V s, in_file s (xlex parser_cfg V s).
 Proof. exact xlex_spans_in_file_lemma. Qed.
 Print Assumptions C28_xlex_spans_in_file.
 
-(* the verdict with the repair (d.Level() <= report.Error): ok exactly when no diagnostic is of
+(* the verdict (d.Level() <= report.Error): ok exactly when no diagnostic is of
    level Error or worse, over the levels ICE < Error < Warning < Remark *)
 Theorem C28_verdict_spec : forall levels, Forall known_level levels ->
   (verdict_repaired levels = true <-> forall l, In l levels -> ~ error_or_worse l).
 Proof. exact verdict_spec_repaired_lemma. Qed.
 Print Assumptions C28_verdict_spec.
 
-(* the verdict as written (d.Level() >= report.Error): a lone warning fails the parse, a lone ICE
+(* historical, the verdict before the repair (d.Level() >= report.Error): a lone warning fails the parse, a lone ICE
    passes it *)
 Theorem C28_verdict_spec_refuted :
   (Forall known_level [L_Warning] /\ verdict_as_is [L_Warning] = false
@@ -49,7 +51,7 @@ Theorem C28_verdict_spec_refuted :
 Proof. exact verdict_spec_refuted_lemma. Qed.
 Print Assumptions C28_verdict_spec_refuted.
 
-(* the verdict as written agrees with the specification exactly on these diagnostic lists: the
+(* historical: the verdict before the repair agrees with the specification exactly on these diagnostic lists: the
    empty one, and those that contain both a level >= Error and a level <= Error *)
 Theorem C28_verdict_spec_partial : forall levels, Forall known_level levels ->
   ((verdict_as_is levels = true <-> forall l, In l levels -> ~ error_or_worse l)
